@@ -385,6 +385,10 @@ impl Work<Context, AnyWorkId, Error> for GlyphWork {
                 context
                     .glyphs
                     .set_unconditionally(Glyph::new(name.clone(), composite));
+                #[cfg(fontc_verif)]
+                context
+                    .glyphs
+                    .verif_read_back(&WorkId::GlyfFragment(name.clone()).into());
                 let point_seqs = point_seqs_for_composite_glyph(
                     ir_glyph,
                     &global_metrics,
@@ -420,6 +424,10 @@ impl Work<Context, AnyWorkId, Error> for GlyphWork {
                 context
                     .glyphs
                     .set_unconditionally(Glyph::new(name.clone(), base_glyph.clone()));
+                #[cfg(fontc_verif)]
+                context
+                    .glyphs
+                    .verif_read_back(&WorkId::GlyfFragment(name.clone()).into());
 
                 let mut num_points = 0;
                 let mut contour_ends = Vec::with_capacity(base_glyph.contours.len());
@@ -476,10 +484,14 @@ impl Work<Context, AnyWorkId, Error> for GlyphWork {
             )?
         };
 
+        #[cfg(fontc_verif)]
+        let verif_id: AnyWorkId = WorkId::GvarFragment(name.clone()).into();
         context.gvar_fragments.set_unconditionally(GvarFragment {
             glyph_name: name,
             deltas,
         });
+        #[cfg(fontc_verif)]
+        context.gvar_fragments.verif_read_back(&verif_id);
 
         Ok(())
     }
@@ -834,6 +846,10 @@ fn compute_composite_bboxes(context: &Context) -> Result<(), Error> {
         };
         composite.bbox = bbox.into(); // delay conversion to Bbox to avoid accumulating rounding error
         context.glyphs.set_unconditionally(glyph);
+        #[cfg(fontc_verif)]
+        context
+            .glyphs
+            .verif_read_back(&WorkId::GlyfFragment(glyph_name.clone()).into());
     }
 
     Ok(())
